@@ -700,3 +700,16 @@ pub trait Timings {
         self.get_rx_window_lead_time_ms()
     }
 }
+
+#[cfg(feature = "verif-hooks")]
+impl<R, T, G, const N: usize, const D: usize> Device<R, T, G, N, D>
+where
+    R: radio::PhyRxTx + Timings,
+    T: radio::Timer,
+    G: RngCore,
+{
+    /// Read-only projection of the MAC state for external verification harnesses.
+    pub fn verif_snapshot(&self) -> mac::VerifSnapshot {
+        self.mac.verif_snapshot()
+    }
+}
